@@ -130,11 +130,27 @@ BODY: List[Tuple[str, str, List[str], List[str], str]] = [
       "elif domain is None and issubclass(type_, Symbol):\n    domain = SymbolGraph().get_instances_of_type(type_)",
       "return From(domain)"], ""),
     (HD, "HashedIterable.__iter__", ["self"],
-     ["yield from self.values.values()", "for v in self.iterable:\n    self.values[v.id_] = v\n    yield v"],
-     "(* let(T, None) + first complete evaluation: sweep, enumerate the registry, keep what was seen; later evaluations replay it *)\n"
+     ["index = 0",
+      "while True:\n"
+      "    cached = list(self.values.values())[index:]\n"
+      "    if cached:\n"
+      "        for v in cached:\n"
+      "            index += 1\n"
+      "            yield v\n"
+      "        continue\n"
+      "    if not hasattr(self.iterable, '__next__'):\n"
+      "        self.iterable = iter(self.iterable)\n"
+      "    for v in self.iterable:\n"
+      "        if v.id_ not in self.values:\n"
+      "            self.values[v.id_] = v\n"
+      "            break\n"
+      "    else:\n"
+      "        return"],
+     "(* let(T, None) + first complete evaluation by one consumer: sweep, enumerate the registry once, yield and cache every id once\n"
+     "   (replay by position, then one new element at a time, ids already cached skipped); later evaluations replay the cache *)\n"
      "Definition g_eval_fresh (children : cls -> list cls) (fuel : nat) (L : list orec) (r : reg) (T : cls)\n"
      "  : reg * list (option obj) * list obj :=\n"
-     "  let r' := g_sweep L r in let res := g_instances children fuel L r' T in (r', res, dedup (somes res)).\n"
+     "  let r' := g_sweep L r in let res := g_instances children fuel L r' T in (r', dedupo res, dedup (somes res)).\n"
      "Definition g_eval_again (cache : list obj) : list (option obj) := map Some cache."),
 ]
 
